@@ -25,7 +25,7 @@ CHECKS = {
  "C06": E("E1", "bounded-exhaustive lockstep enumeration: zones x start instants around every transition x span/duration pools x operations, against R-cal civil addition + R-tz compatible resolution + exact i128 instant arithmetic",
          "Zoned arithmetic is compared with the documented algorithm computed independently (civil add with clamping, compatible resolution by pre-image counting, exact elapsed-time add); start_of_day is compared with the first instant of the civil day found by scanning the model's pieces."),
  "C07": E("E1", "bounded-exhaustive enumeration of ordered pairs (boundary pools, all month ends of two leap cycles, 21x21 neighbourhoods of every transition) x every permitted largest unit; metamorphic + exact oracles (a+s==b, sign, no unit above largest, overshoot-balance, since=-until, exact ns distance)",
-         "For every pair and largest unit the returned span is checked for reversibility through jiff's own addition AND through the reference model's addition (R-cal / R-tz), against an independently computed expected span for largest year/month, for sign consistency, balance by the overshoot test, exact nanosecond distance, all argument forms, documented refusals, cross-zone differences and 28 hand-built extreme zones; both build modes."),
+         "For every pair and largest unit the returned span is checked for reversibility through jiff's own addition AND through the reference model's addition (R-cal / R-tz), against an independently computed expected span for largest year/month, for sign consistency, balance by the overshoot test, exact nanosecond distance with the absolute duration in canonical representation (quotient/remainder, one sign, == a freshly built value), all argument forms, documented refusals, cross-zone differences and 28 hand-built extreme zones; both build modes."),
  "C08": E("E1", "bounded-exhaustive lockstep enumeration: (date pool + all month ends of leap cycles) x ~2,500-10,000 spans (every unit at every boundary value, all 2-unit mixes, 64-bit thresholds) and signed/unsigned durations x checked/saturating/wrapping/operators/series; R-cal + i128 oracle",
          "The documented calendar rules are transcribed independently (months first with clamping, then days on the epoch-day count, time units carried in 24-hour days) and compared on the complete product, including exactly when an addition is an error and exact modulo-24h wrapping."),
  "C09": E("E1", "exhaustive / bounded-exhaustive print->parse enumeration: all 7.3M dates, every second x all sub-second precisions, timestamps and zoned values around every transition of every named zone (both sides of folds, sub-minute LMT periods), all 187,199 display offsets, all whole-minute fixed zones, printer option product; independent RFC 3339/9557 reader",
@@ -51,7 +51,7 @@ CHECKS = {
  "C18": E("E1", "exhaustive configuration product: every zone through {raw bytes, zoneinfo dir, concatenated file in a plain and an adversarial layout, bundled db, global db, static include!/get! macros} x {tz-fat on, off} (two builds of the same dumper) x {slim, fat zic output}; canonical answer streams compared line by line and by digest across builds; all case variants of names; POSIX print->parse",
          "The same data must give identical answer streams (offset info, civil classification, transitions, printed forms) through every back-end and feature configuration; slim and fat compilations of the same rules must agree wherever zic's own outputs describe the same zone; name lookup is checked warm and cold for every name in 4-4096 case variants and for all 9,120 short queries against a 154-name neighbour database; TimeZone == between runtime routes; POSIX printed forms are re-read by an independent reader."),
  "C19": E("E2+E3", "sequential: every event history up to depth 4/5 over a 22-event alphabet (incl. replacement by a file with an OLDER modification time) executed from scratch on the real public API with a harness-owned clock (no state merging), property-level admissibility monitor; concurrent: loom exhaustive exploration (preemption-bounded DPOR) of the real, unmodified zoneinfo and concatenated database sources compiled against loom via a std shim",
-         "All 22^4 = 234,256 (quick) / 22^5 = 5,153,632 (thorough) histories of get/reset/write/touch/remove/advance per back-end, plus deep / revalidated / single-zone / bundled sections with invalid, directory, truncated, same-mtime and older-mtime replacements (1.14 M quick / 24.4 M thorough histories in all), are executed; every answer must be a state the name's data had on disk within the last TTL or since the last reset, and an entry whose mtime is unchanged must be reused until reset; all interleavings of 2-3 threads up to the preemption bound over 19 bodies x 2 back-ends are explored by loom, which also detects deadlocks.",
+         "All 22^4 = 234,256 (quick) / 22^5 = 5,153,632 (thorough) histories of get/reset/write/touch/remove/advance per back-end, plus deep / revalidated / single-zone / bundled sections with invalid, directory, truncated, same-mtime and older-mtime replacements (1.14 M quick / 24.4 M thorough histories in all), are executed; every answer must be a state the name's data had on disk within the last TTL or since the last reset, and an entry whose mtime is unchanged must be reused until reset; a replacement landing INSIDE a lookup is made deterministic with a named pipe, and the database root may be a symbolic link that is re-pointed; all interleavings of 2-3 threads up to the preemption bound over 19 bodies x 2 back-ends are explored by loom, which also detects deadlocks.",
          "The std shim replaces std::sync::{Arc,RwLock} by loom's in the unmodified sources; file-system and clock effects are driven deterministically by the harness; the global tz::db() singleton and TZDIR discovery are not explored. " + TRUST),
  "C20": E("E2+E3", "all programs over {new, clone, move, drop, eq, query, wrap} on a pool of 3 handle slots up to depth 6/8 executed from scratch on real handles with a counting allocator (no state merging); all 187,199 fixed offsets; baton-scheduled enumeration of all orders of handle operations of 2-3 threads (95,000 / 1.36 M schedules); database-cache handles, 43 constructor paths, equality matrix over 36 handles, unwinding with live handles; replay under ASan+LSan; Miri on free-running (unserialised) threads in both tiers and on depth-3 programs in thorough; ThreadSanitizer on the free-running section in thorough",
          "Every bounded program is run on real TimeZone values; after every step the set of live heap groups must equal the reference model's, queries must answer correctly, equality must be reflexive/symmetric/clone-stable; memory safety is decided by the counting allocator (consulted before every read) and by replaying the program set under AddressSanitizer/LeakSanitizer and Miri; data races in reference counts by Miri/TSan on free-running threads.",
